@@ -71,8 +71,14 @@ def reverts():
             diff = subprocess.run(["git", "-C", REPO, "diff", c + "^", c, "--", "include"], capture_output=True, text=True).stdout
             p = subprocess.run(["patch", "-p1", "-R", "-s", "-F3"], input=diff, text=True, cwd=d, capture_output=True)
             if p.returncode != 0:
-                print("selftest reverts: %s does not revert cleanly on the current tree (later commits touch the same lines)" % c)
-                continue
+                # later commits touch the same lines: use the hand-made equivalent of the revert kept under lib/reverts/
+                alt = os.path.join(VERIF, "lib", "reverts", c + ".diff")
+                shutil.rmtree(os.path.join(d, "include"))
+                shutil.copytree(os.path.join(REPO, "include"), os.path.join(d, "include"))
+                if not os.path.exists(alt) or subprocess.run(["patch", "-p1", "-s", "-F3"], input=open(alt).read(), text=True, cwd=d, capture_output=True).returncode != 0:
+                    print("selftest reverts: %s does not revert cleanly on the current tree and no lib/reverts/%s.diff applies" % (c, c))
+                    bad += 1
+                    continue
             env = dict(os.environ)
             env["VERIF_REPO"] = d
             r = subprocess.run([os.path.join(VERIF, "check"), pid, "quick"], env=env, capture_output=True, text=True)
